@@ -221,3 +221,33 @@ Proof.
   exact (conj (proj1 ext_crossing) (conj (proj2 ext_crossing)
         (conj (proj1 ext_verdicts) (proj1 (proj2 ext_verdicts))))).
 Qed.
+
+(* ------------------------------------------------------------------ *)
+(* Memory ports and the pins generated for external memories. *)
+
+(* A register / pin / memory port WITHOUT a clock is not compared with anything: a single input of any
+   domain passes.  (This is why every pin that MemoryGroup::replaceWithIOPins generates for an external
+   memory must receive the port's clock.) *)
+Theorem clockless_sink_is_unchecked : forall ps nd x,
+  uses_base_check (nkind nd) = true -> own_clock nd = None ->
+  check_valid ps nd [x; SConst] = true.
+Proof. exact clockless_sink_unchecked. Qed.
+Print Assumptions clockless_sink_is_unchecked.
+
+(* When every sink with a connected input carries a clock ([sinks_clocked], checked on every dumped
+   netlist, in particular on the post-processed one that contains the generated memory pins), an
+   accepted design has every input of every register, pin and memory port -- enable, write enable,
+   address, write data -- reached only by signals of that node's own clock domain. *)
+Theorem cdc_sound_all_sinks : forall n dom,
+  wf n = true -> domains_ok n dom = true -> flagged n dom = [] -> sinks_clocked n = true ->
+  forall v nd i q s,
+    get_node n v = Some nd -> is_sink_kind (nkind nd) = true ->
+    nth_error (nins nd) i = Some (Some q) -> influences n s q ->
+    exists c, own_clock nd = Some c /\ same_dom (pin_source n) s (SrcClk c).
+Proof. exact cdc_sound_sinks_thm. Qed.
+Print Assumptions cdc_sound_all_sinks.
+
+Example sinks_clocked_examples :
+  sinks_clocked ex_marked = true
+  /\ sinks_clocked (mkNetlist [ mkNode KPin 0 [None] 1 [Some 0] [] []; mkNode KPin 1 [Some (0, 0)%N] 1 [None] [] [] ] ex_clocks) = false.
+Proof. vm_compute. auto. Qed.
